@@ -13,6 +13,7 @@ use syn::{ImplItem, Item, Stmt};
 
 thread_local! {
     static KEEP_TRAIT: std::cell::Cell<bool> = std::cell::Cell::new(false);
+    static STUB: std::cell::Cell<bool> = std::cell::Cell::new(false);
 }
 
 pub enum Group {
@@ -133,7 +134,7 @@ fn impl_matches(im: &syn::ItemImpl, sel: &ImplSel) -> bool {
     }
 }
 
-pub fn extract(file: &syn::File, sels: &[String], rel: &str) -> Vec<Group> {
+pub fn extract(file: &syn::File, sels: &[String], rel: &str, soft: bool) -> Vec<Group> {
     let mut groups: Vec<Group> = Vec::new();
     // impl groups are merged by (container path, impl index)
     let mut impl_index: Vec<(String, usize)> = Vec::new(); // parallel to groups that are Impl: key
@@ -153,7 +154,12 @@ pub fn extract(file: &syn::File, sels: &[String], rel: &str) -> Vec<Group> {
                     prefix.push_str(c);
                     prefix.push('/');
                 }
-                None => die(&format!("{}: container `{}` of selector `{}` not found (lost anchor)", rel, c, sel)),
+                None => {
+                    if soft {
+                        return Vec::new();
+                    }
+                    die(&format!("{}: container `{}` of selector `{}` not found (lost anchor)", rel, c, sel))
+                }
             }
         }
         let (isel, name) = parse_last(parts[parts.len() - 1]);
@@ -163,6 +169,9 @@ pub fn extract(file: &syn::File, sels: &[String], rel: &str) -> Vec<Group> {
                 .filter(|i| item_ident(i).as_deref() == Some(name.as_str()) && !rules::has_cfg_test_or_feature(item_attrs(i)))
                 .collect();
             if found.len() != 1 {
+                if soft {
+                    continue;
+                }
                 die(&format!("{}: selector `{}` matches {} items (lost anchor)", rel, sel, found.len()));
             }
             groups.push(Group::Free { selector: sel.clone(), item: found[0].clone() });
@@ -226,6 +235,9 @@ pub fn extract(file: &syn::File, sels: &[String], rel: &str) -> Vec<Group> {
                 }
             }
             if !hit {
+                if soft {
+                    continue;
+                }
                 die(&format!("{}: selector `{}` matches nothing (lost anchor)", rel, sel));
             }
         }
@@ -282,6 +294,10 @@ fn emit_fn(
     let in_trait_impl = matches!(vis, syn::Visibility::Inherited) && selector.contains("impl ") && KEEP_TRAIT.with(|k| k.get());
     let mut sig = sig.clone();
     let mut block = block.clone();
+    if STUB.with(|k| k.get()) {
+        // auto-stub: signature only
+        block = syn::parse_quote!({ unimplemented!() });
+    }
     let mut attrs: Vec<syn::Attribute> = attrs.to_vec();
     rules::filter_attrs(&mut attrs, cfg, false, fired);
 
@@ -323,16 +339,34 @@ fn emit_fn(
     rules::mut_self(&mut sig, &mut block, fired);
     let mut markers = Markers::default();
     // loops
-    let mut ln = rules::LoopNumberer { next: 0 };
-    ln.visit_block_mut(&mut block);
-    let nloops = ln.next;
     let empty = ItemContract::default();
     let c = contract.unwrap_or(&empty);
+    let mut iter_names = std::collections::BTreeMap::new();
+    for (k, b) in c.loops.iter() {
+        if let Some(first) = b.lines.iter().find(|l| !l.trim().is_empty()) {
+            if let Some(n) = first.trim().strip_prefix("iter ") {
+                iter_names.insert(*k, n.trim().to_string());
+            }
+        }
+    }
+    let mut ln = rules::LoopNumberer { next: 0, iter_names };
+    ln.visit_block_mut(&mut block);
+    let nloops = ln.next;
     for (k, b) in c.loops.iter() {
         if *k >= nloops {
             die(&format!("{}: @loop {} but the item has {} loops (lost anchor)", selector, k, nloops));
         }
-        markers.loops.insert(*k, b.clone());
+        let mut b2 = b.clone();
+        // the `iter NAME` line is consumed by the numberer; blank it (keeps line numbers)
+        for l in b2.lines.iter_mut() {
+            if l.trim().starts_with("iter ") {
+                *l = String::new();
+                break;
+            } else if !l.trim().is_empty() {
+                break;
+            }
+        }
+        markers.loops.insert(*k, b2);
     }
     // closures
     let mut cn = rules::ClosureNumberer { next: 0, specs: &c.closures };
@@ -446,7 +480,10 @@ pub fn emit_group(
     fired: &mut Fired,
     used: &mut Vec<String>,
     canaries: bool,
+    stub: bool,
 ) {
+    let canaries = canaries && !stub;
+    STUB.with(|k| k.set(stub));
     let modpfx: String = match module {
         Some(m) => format!("{}/", m),
         None => String::new(),
@@ -480,7 +517,7 @@ pub fn emit_group(
                         pr.item = None;
                         let c = lookup(&selector, used);
                         let vis: syn::Visibility = syn::parse_quote!(pub);
-                        emit_fn(&selector, &f.attrs, &vis, &ff.init_sig, &ff.init_block, None, rel, cfg, c, pr, fired, false, canaries);
+                        emit_fn(&selector, &f.attrs, &vis, &ff.init_sig, &ff.init_block, None, rel, cfg, c, pr, fired, false, canaries || stub);
                         let nsel = format!("{}::next", selector);
                         let nc = lookup(&nsel, used);
                         let g = &ff.impl_generics;
@@ -489,7 +526,7 @@ pub fn emit_group(
                         pr.stream(quote!(impl #g #st), &Markers::default(), false);
                         pr.word("{", false);
                         pr.newline();
-                        emit_fn(&nsel, &[], &vis, &ff.next_sig, &ff.next_block, None, rel, cfg, nc, pr, fired, false, canaries);
+                        emit_fn(&nsel, &[], &vis, &ff.next_sig, &ff.next_block, None, rel, cfg, nc, pr, fired, false, canaries || stub);
                         if canaries && !nc.map(|c| c.nocanary).unwrap_or(false) {
                             emit_fn(&nsel, &[], &vis, &ff.next_sig, &ff.next_block, None, rel, cfg, nc, pr, fired, true, false);
                         }
@@ -497,7 +534,7 @@ pub fn emit_group(
                         return;
                     }
                     let c = lookup(&selector, used);
-                    emit_fn(&selector, &f.attrs, &f.vis, &f.sig, &f.block, None, rel, cfg, c, pr, fired, false, canaries);
+                    emit_fn(&selector, &f.attrs, &f.vis, &f.sig, &f.block, None, rel, cfg, c, pr, fired, false, canaries || stub);
                     if canaries && !c.map(|c| c.nocanary).unwrap_or(false) {
                         emit_fn(&selector, &f.attrs, &f.vis, &f.sig, &f.block, None, rel, cfg, c, pr, fired, true, false);
                     }
@@ -660,7 +697,7 @@ pub fn emit_group(
                         let mut blk = m.block.clone();
                         st.visit_block_mut(&mut blk);
                         let vis: syn::Visibility = syn::parse_quote!(pub);
-                        emit_fn(&sel, &m.attrs, &vis, &sig, &blk, assoc, rel, cfg, c, pr, fired, false, canaries);
+                        emit_fn(&sel, &m.attrs, &vis, &sig, &blk, assoc, rel, cfg, c, pr, fired, false, canaries || stub);
                     }
                     return;
                 }
@@ -717,7 +754,7 @@ pub fn emit_group(
                 } else {
                     m.vis.clone()
                 };
-                emit_fn(&sel, &m.attrs, &vis, &m.sig, &m.block, self_err.clone(), rel, cfg, c, pr, fired, false, canaries);
+                emit_fn(&sel, &m.attrs, &vis, &m.sig, &m.block, self_err.clone(), rel, cfg, c, pr, fired, false, canaries || stub);
                 if canaries && !c.map(|c| c.nocanary).unwrap_or(false) {
                     emit_fn(&sel, &m.attrs, &vis, &m.sig, &m.block, self_err.clone(), rel, cfg, c, pr, fired, true, false);
                 }
